@@ -114,7 +114,16 @@ theorem c05_static_after_stop (a : Asset) (sets : List ASDef) (cfg : MpdCfg) (no
     | panic => simp [hb] at h
     | ok outs pt =>
       simp only [hb] at h
-      injection h with h; subst h; exact ⟨rfl, rfl⟩
+      cases hp : cfg.periodsPerHour with
+      | none => simp only [hp] at h; injection h with h; subst h; exact ⟨rfl, rfl⟩
+      | some pph =>
+        simp only [hp] at h
+        split at h
+        · cases h
+        · split at h
+          · cases h
+          · cases h
+          · injection h with h; subst h; exact ⟨rfl, rfl⟩
 
 /-- non-vacuity: `testpic_2s`: E is strictly increasing across the wrap (segment 3 ends at 8 s, segment 4 at 10 s) -/
 example : E exAsset exRep 3 = 720000 ∧ E exAsset exRep 4 = 900000 := by decide
